@@ -23,6 +23,7 @@
 #include <sys/mman.h>
 #include <sys/personality.h>
 #include <sys/stat.h>
+#include <sys/prctl.h>
 #include <sys/syscall.h>
 #include <ucontext.h>
 #include <sys/wait.h>
